@@ -1,0 +1,53 @@
+//go:build verif
+
+// Contracts (//@ lines) for package compiler.
+// Compiled only with -tags verif; adds no behaviour.
+package compiler
+
+import (
+	"github.com/xjslang/xjs/ast"
+)
+
+var _ ast.Node
+
+func old[T any](x T) T       { return x }
+func implies(a, b bool) bool { return !a || b }
+func ite[T any](c bool, a, b T) T {
+	if c {
+		return a
+	}
+	return b
+}
+func ncalls(name string) int                     { return 0 }
+func callArg[T any](name string, k int, i int) T { var z T; return z }
+func callResult[T any](name string, k int) T     { var z T; return z }
+func callOrder(a string, i int, b string, j int) bool { return true }
+func atEntry[T any](x T) T                       { return x }
+func fresh(x any) bool                           { return true }
+
+// Compile builds a fresh writer (and a fresh mapper when a source map is requested) per call, configured from the
+// compiler's settings only; it stores nothing in the compiler and writes nothing to the tree (empty modifies clause).
+// Post-processing of the text depends on the pretty-print setting alone -- never on whether a source map is requested.
+//@ func (c *Compiler) Compile
+//@   props C14 C06 C08 C01
+//@   requires [program] program != nil
+//@   atcall ast:(*Program).WriteTo [writer.config@C06,C14] arg_cw != nil && fresh(arg_cw) && arg_cw.PrettyPrint == c.prettyPrint && arg_cw.IndentString == c.prettyPrintOptions.IndentString && arg_cw.WriteSemicolons == c.prettyPrintOptions.WriteSemicolons && arg_cw.IndentLevel == 0 && (arg_cw.Mapper != nil) == c.generateSourceMap && ast.WriterEmpty(arg_cw)
+//@   atcall ast:(*Program).WriteTo [writer.mapper@C08,C14] arg_cw.Mapper == nil || fresh(arg_cw.Mapper)
+//@   ensures [once@C01] ncalls("(*Program).WriteTo") == 1 && callArg[*ast.Program]("(*Program).WriteTo", 0, 0) == program
+//@   ensures [postprocess@C14,C06] ncalls("cleanEmptyLines") == ite(c.prettyPrint, 1, 0)
+//@   ensures [code.compact@C14,C01] implies(!c.prettyPrint, ncalls("(*CodeWriter).String") == 1 && result.Code == callResult[string]("(*CodeWriter).String", 0))
+//@   ensures [code.pretty@C06] implies(c.prettyPrint, result.Code == callResult[string]("cleanEmptyLines", 0) && callArg[string]("cleanEmptyLines", 0, 0) == callResult[string]("(*CodeWriter).String", 0))
+//@   ensures [map@C08,C14] (result.SourceMap != nil) == c.generateSourceMap
+
+//@ func cleanEmptyLines
+//@   props C06 C14 C11
+//@   loop 1 invariant [frame] len(lines) == atEntry(len(lines))
+
+//@ func New
+//@   props C14
+//@   ensures [fresh@C14] result != nil && fresh(result) && !result.generateSourceMap && !result.prettyPrint
+
+//@ func (c *Compiler) WithSourceMap
+//@   props C14 C08
+//@   modifies c.generateSourceMap
+//@   ensures [set] c.generateSourceMap && result == c
